@@ -98,9 +98,10 @@ Section HLL.
     match len t with Exact n => (0%Z, Z.of_nat n) | Est z => (1%Z, Z.of_N z) end.
   Definition enc_state (t : st) : Z * list N :=
     match t with Warm s => (0%Z, s) | Cold r => (1%Z, r) end.
-  Definition obs (l : list N) : list (Z * Z) * (Z * list N) :=
+  (* [ks]: positions (0-based op indices) at which the full state is printed as well *)
+  Definition obs (l : list N) (ks : list N) : list (Z * Z) * list (Z * list N) :=
     let tr := trace (Warm []) l in
-    (map enc_len tr, enc_state (last tr (Warm []))).
+    (map enc_len tr, map (fun k => enc_state (nth (N.to_nat k) tr (Warm []))) ks).
 
   (* ---- property-level checker on the IMPLEMENTATION's len() after every prefix:
           exact while at most W distinct values were inserted; unchanged by a value seen before ---- *)
